@@ -137,6 +137,7 @@ SRC_TIES = {
     'C04': 'the limit check (three limits, reason chain), the while condition and min_step of _integrate',
     'C05': 'create_trajectory_row with the _new_* constructors, get_correction, calculate_energy/ogw, spin_drift, calc_stability_coefficient',
     'C08': 'eleven Atmo functions incl. calculate_air_density and get_density_factor_and_mach_for_altitude',
+    'C09': 'calculate_curve (first entry, loop body and bounds, closing entry) and the look-up _calculate_by_curve_and_mach_list (bracket, loop condition and body, selection, evaluation)',
     'C11': 'should_record and clear_current_flag',
     'C12': '_WindSock.__init__/update_cache/vector_for_range/current_vector and Wind.vector',
     'C15': 'setup_seen_zero, check_zero_crossing, check_mach_crossing, should_record',
